@@ -1,616 +1,3 @@
-//! C13 — wire encoding is a canonical bijection consistent with hashing.
-//!
-//! For every type of the `vstream` registry (every Streamable type of
-//! chia-protocol, chia-bls, chia-consensus, chia-datalayer + primitive and
-//! combinator instantiations):
-//!  (1) from_bytes(to_bytes(v)) = v and from_bytes_unchecked(to_bytes(v)) = v;
-//!  (2) canonicity on bytes: from_bytes(b) = Ok(v') ⇒ to_bytes(v') = b for b =
-//!      single-byte perturbations of a valid encoding, block perturbations,
-//!      truncations and extensions;
-//!  (3) v.hash() = sha256(to_bytes(v)); with a version-2 proof of space: of
-//!      the encoding with the length-prefixed proof replaced by the quality
-//!      commitment (from the repository's vector files where possible);
-//!  (4) from_bytes(b) = Ok(v') ⇒ from_bytes_unchecked(b) = Ok(v').
-
-use std::sync::atomic::{AtomicBool, Ordering};
-use std::sync::OnceLock;
-
-use chia_protocol::{Bytes32, ProofOfSpace};
-use vcore::engine::{self, CaseResult, Ctx, Property, Source, SubCheck, Tier};
-use vcore::{vensure, vfail, Fnv, Src};
-use vstream::vectors::{vectors, PosVector};
-use vstream::{registry, take_gen_labels, DynValue, Entry, HashExpect, HashSource, Walker};
-
-fn hx(b: &[u8]) -> String {
-    if b.len() <= 160 {
-        hex::encode(b)
-    } else {
-        format!("{}…({} bytes)…{}", hex::encode(&b[..96]), b.len(), hex::encode(&b[b.len() - 32..]))
-    }
-}
-
-// ---------------------------------------------------------------------------
-// registry drift (reported as labels on exactly one case per run + a warning)
-
-struct Drift {
-    labels: Vec<String>,
-}
-
-fn drift() -> &'static Drift {
-    static D: OnceLock<Drift> = OnceLock::new();
-    D.get_or_init(|| {
-        let rep = vstream::drift::scan(&vstream::vectors::repo_root());
-        let mut labels = vec![
-            format!("registry:entries={}", registry().len()),
-            format!("registry:declarations-found-in-tree={}", rep.found.len()),
-            format!("registry:types_uncovered={}", rep.uncovered.len()),
-        ];
-        if rep.files_scanned == 0 {
-            labels.push("registry:tree-not-readable".to_string());
-            println!("WARNING C13 registry drift: no source file readable under {}/crates", vstream::vectors::repo_root());
-        }
-        for u in &rep.uncovered {
-            println!("WARNING C13 registry drift: Streamable type {u} is declared in the tree but has no registry entry (not covered by C13/C14)");
-            labels.push(format!("types_uncovered:{u}"));
-        }
-        Drift { labels }
-    })
-}
-
-static DRIFT_REPORTED: AtomicBool = AtomicBool::new(false);
-
-fn report_drift_once(ctx: &mut Ctx) {
-    let d = drift();
-    if !ctx.want_render() && !DRIFT_REPORTED.swap(true, Ordering::SeqCst) {
-        for l in &d.labels {
-            ctx.label(l.clone());
-        }
-    }
-}
-
-// ---------------------------------------------------------------------------
-// oracle pieces
-
-fn type_sig(kind: &str) -> String {
-    format!("C13:{kind}")
-}
-
-/// (1) and (3) on a well-formed value; returns its encoding
-fn check_value(e: &Entry, v: &dyn DynValue, ctx: &mut Ctx) -> Result<Vec<u8>, engine::Failure> {
-    let enc = match v.to_bytes() {
-        Ok(b) => b,
-        Err(err) => vfail!(
-            type_sig("encode:well-formed-value-rejected"),
-            "{}: to_bytes of a well-formed value fails with {err:?}: {}",
-            e.name,
-            v.debug()
-        ),
-    };
-    // (1) untrusted
-    match (e.from_bytes)(&enc) {
-        Ok(d) => {
-            vensure!(
-                d.eq_dyn(v),
-                type_sig("roundtrip:from_bytes-differs"),
-                "{}: from_bytes(to_bytes(v)) != v\n  v  = {}\n  v' = {}\n  bytes = {}",
-                e.name,
-                v.debug(),
-                d.debug(),
-                hx(&enc)
-            );
-            let re = d.to_bytes();
-            vensure!(
-                re.as_ref().ok() == Some(&enc),
-                type_sig("canonicity:valid-encoding-not-reproduced"),
-                "{}: to_bytes(from_bytes(b)) != b for b = to_bytes(v) = {}",
-                e.name,
-                hx(&enc)
-            );
-        }
-        Err(err) => vfail!(
-            type_sig("roundtrip:from_bytes-rejects-valid"),
-            "{}: from_bytes(to_bytes(v)) = Err({err:?}); v = {}; bytes = {}",
-            e.name,
-            v.debug(),
-            hx(&enc)
-        ),
-    }
-    // (1) trusted
-    match (e.from_bytes_unchecked)(&enc) {
-        Ok(d) => vensure!(
-            d.eq_dyn(v),
-            type_sig("roundtrip:from_bytes_unchecked-differs"),
-            "{}: from_bytes_unchecked(to_bytes(v)) != v\n  v  = {}\n  v' = {}",
-            e.name,
-            v.debug(),
-            d.debug()
-        ),
-        Err(err) => vfail!(
-            type_sig("roundtrip:from_bytes_unchecked-rejects-valid"),
-            "{}: from_bytes_unchecked(to_bytes(v)) = Err({err:?}); v = {}",
-            e.name,
-            v.debug()
-        ),
-    }
-    // (3)
-    check_hash(e, v, &enc, ctx, true)?;
-    Ok(enc)
-}
-
-/// (3) the streaming hash against the rule computed from the encoding
-fn check_hash(e: &Entry, v: &dyn DynValue, enc: &[u8], ctx: &mut Ctx, label: bool) -> CaseResult {
-    match v.expected_hash(enc) {
-        HashExpect::Defined { hash, source, v2_proofs } => {
-            let got = v.hash();
-            let what = match source {
-                HashSource::Plain => "hash:plain",
-                HashSource::Vectors => "hash:v2-commitment-from-vector-files",
-                HashSource::Code => "hash:v2-commitment-from-quality_string",
-            };
-            if label {
-                ctx.label(what);
-            }
-            vensure!(
-                got == hash,
-                type_sig(if v2_proofs == 0 { "hash:differs-from-sha256-of-encoding" } else { "hash:v2-rule-violated" }),
-                "{}: hash() = {} but the rule ({what}, {v2_proofs} v2 proofs) gives {}; v = {}; bytes = {}",
-                e.name,
-                hex::encode(got),
-                hex::encode(hash),
-                v.debug(),
-                hx(enc)
-            );
-        }
-        HashExpect::Undefined { .. } => {
-            // no defined hash (C14 finding F3): (3) is skipped and counted
-            if label {
-                ctx.label("hash:skipped-undefined-v2-proof");
-            }
-        }
-        HashExpect::Unlocatable => vfail!(
-            type_sig("hash:v2-proof-not-locatable-in-encoding"),
-            "{}: flipping the bytes of an embedded v2 proof does not change the encoding in exactly one place of the proof's length; v = {}",
-            e.name,
-            v.debug()
-        ),
-    }
-    Ok(())
-}
-
-/// (2) + (4) (+ (3)) on an arbitrary byte string; returns true if accepted
-fn check_bytes(e: &Entry, b: &[u8], what: &str) -> Result<bool, engine::Failure> {
-    let v = match (e.from_bytes)(b) {
-        Ok(v) => v,
-        Err(_) => return Ok(false),
-    };
-    match v.to_bytes() {
-        Ok(re) => vensure!(
-            re == b,
-            type_sig("canonicity:accepted-bytes-not-reproduced"),
-            "{}: from_bytes accepts a {what} of a valid encoding but re-encoding gives other bytes\n  accepted = {}\n  re-encoded = {}\n  value = {}",
-            e.name,
-            hx(b),
-            hx(&re),
-            v.debug()
-        ),
-        Err(err) => vfail!(
-            type_sig("canonicity:accepted-bytes-do-not-re-encode"),
-            "{}: from_bytes accepts {} ({what}) but to_bytes of the result fails: {err:?}",
-            e.name,
-            hx(b)
-        ),
-    }
-    // (4)
-    match (e.from_bytes_unchecked)(b) {
-        Ok(t) => vensure!(
-            t.eq_dyn(&*v),
-            type_sig("trusted-decoder:different-value"),
-            "{}: from_bytes and from_bytes_unchecked both accept {} ({what}) but return different values\n  untrusted = {}\n  trusted   = {}",
-            e.name,
-            hx(b),
-            v.debug(),
-            t.debug()
-        ),
-        Err(err) => vfail!(
-            type_sig("trusted-decoder:rejects-what-untrusted-accepts"),
-            "{}: from_bytes accepts {} ({what}) but from_bytes_unchecked fails with {err:?}",
-            e.name,
-            hx(b)
-        ),
-    }
-    // (3) on the decoded value (bytes b are its encoding, just verified)
-    match v.expected_hash(b) {
-        HashExpect::Defined { hash, v2_proofs, .. } => {
-            let got = v.hash();
-            vensure!(
-                got == hash,
-                type_sig(if v2_proofs == 0 { "hash:differs-from-sha256-of-encoding" } else { "hash:v2-rule-violated" }),
-                "{}: value decoded from {} ({what}) has hash() = {} but the rule gives {}",
-                e.name,
-                hx(b),
-                hex::encode(got),
-                hex::encode(hash)
-            );
-        }
-        HashExpect::Undefined { .. } | HashExpect::Unlocatable => {}
-    }
-    Ok(true)
-}
-
-struct Lcg(u64);
-impl Lcg {
-    fn next(&mut self) -> u64 {
-        self.0 = self.0.wrapping_mul(6364136223846793005).wrapping_add(1442695040888963407);
-        self.0 >> 17
-    }
-    fn below(&mut self, n: usize) -> usize {
-        (self.next() % n.max(1) as u64) as usize
-    }
-}
-
-const POKE: [u8; 8] = [0, 1, 2, 3, 4, 0x7f, 0x80, 0xff];
-
-/// every single-byte perturbation at `pos`: returns (#decodes, #accepted)
-fn perturb_position(e: &Entry, enc: &[u8], buf: &mut [u8], pos: usize) -> Result<(u64, u64), engine::Failure> {
-    let orig = enc[pos];
-    let mut tried = [false; 256];
-    tried[orig as usize] = true;
-    let mut n = 0;
-    let mut acc = 0;
-    for val in POKE.iter().copied().chain([orig.wrapping_add(1), orig.wrapping_sub(1)]) {
-        if tried[val as usize] {
-            continue;
-        }
-        tried[val as usize] = true;
-        buf[pos] = val;
-        n += 1;
-        if check_bytes(e, buf, "single-byte perturbation")? {
-            acc += 1;
-        }
-    }
-    buf[pos] = orig;
-    Ok((n, acc))
-}
-
-/// Work of one case is sized by a *deterministic* cost estimate of one
-/// decode (≈45 µs per embedded BLS element, ≈150 µs per v2 proof whose
-/// commitment must be recomputed, ≈1 µs per 500 bytes): `budget_us / cost`
-/// perturbation decodes. Where that covers every position (always for
-/// encodings without BLS elements up to several KiB) every position is
-/// perturbed; otherwise positions are sampled, structural candidates (bytes
-/// 0..=3: Option/bool/version prefixes, high bytes of lengths) first.
-fn perturbations(e: &Entry, v: &dyn DynValue, enc: &[u8], budget_us: usize, ctx: &mut Ctx) -> CaseResult {
-    let len = enc.len();
-    let mut buf = enc.to_vec();
-    let mut rng = Lcg(vcore::fnv(enc) | 1);
-    let mut decodes = 0u64;
-    let mut accepted = 0u64;
-    let v2 = match v.expected_hash(enc) {
-        HashExpect::Defined { v2_proofs, .. } | HashExpect::Undefined { v2_proofs } => v2_proofs,
-        HashExpect::Unlocatable => 0,
-    };
-    let cost_us = 1 + len / 500 + 45 * v.bls_elements() + 150 * v2;
-    let budget_positions = (budget_us / cost_us / 9).max(8);
-    // --- single-byte perturbations
-    let positions: Vec<usize> = if len <= budget_positions {
-        if e.has_fix && !vstream::version_prefix_positions(v, enc).is_empty() {
-            ctx.label("perturbation:version-prefix-byte");
-        }
-        (0..len).collect()
-    } else {
-        let mut cand: Vec<usize> = (0..len).filter(|i| enc[*i] <= 3).collect();
-        let mut other: Vec<usize> = (0..len).filter(|i| enc[*i] > 3).collect();
-        let shuffle = |v: &mut Vec<usize>, rng: &mut Lcg| {
-            for i in (1..v.len()).rev() {
-                let j = rng.below(i + 1);
-                v.swap(i, j);
-            }
-        };
-        shuffle(&mut cand, &mut rng);
-        shuffle(&mut other, &mut rng);
-        let n_cand = cand.len().min(budget_positions * 3 / 4);
-        let n_other = other.len().min(budget_positions - n_cand);
-        cand.truncate(n_cand);
-        other.truncate(n_other);
-        cand.extend(other);
-        // the version-packed prefix bytes of ProofOfSpace / FullBlock /
-        // UnfinishedBlock are always perturbed
-        if e.has_fix {
-            for p in vstream::version_prefix_positions(v, enc) {
-                if !cand.contains(&p) {
-                    cand.push(p);
-                }
-                ctx.label("perturbation:version-prefix-byte");
-            }
-        }
-        ctx.label(if len > 512 { "perturbation:sampled-positions(>512-bytes)" } else { "perturbation:sampled-positions(bls-heavy)" });
-        cand
-    };
-    let heavy = cost_us > 40;
-    for pos in positions {
-        let (n, a) = perturb_position(e, enc, &mut buf, pos)?;
-        decodes += n;
-        accepted += a;
-    }
-    // --- block perturbations (a run of bytes replaced)
-    if len >= 2 {
-        for _ in 0..((if heavy { 3usize } else { 8 }).min(len)) {
-            let start = rng.below(len);
-            let n = 1 + rng.below(16.min(len - start));
-            let mode = rng.below(3);
-            for b in &mut buf[start..start + n] {
-                *b = match mode {
-                    0 => 0,
-                    1 => 0xff,
-                    _ => rng.next() as u8,
-                };
-            }
-            decodes += 1;
-            if check_bytes(e, &buf, "block perturbation")? {
-                accepted += 1;
-            }
-            buf[start..start + n].copy_from_slice(&enc[start..start + n]);
-        }
-    }
-    // --- truncations
-    let cuts: Vec<usize> = if len <= 96 && !heavy {
-        (0..len).collect()
-    } else {
-        let mut c = vec![0, 1.min(len), len / 2, len.saturating_sub(4), len.saturating_sub(2), len.saturating_sub(1)];
-        for _ in 0..(if heavy { 2 } else { 10 }) {
-            c.push(rng.below(len));
-        }
-        c
-    };
-    for c in cuts {
-        decodes += 1;
-        if check_bytes(e, &enc[..c], "truncation")? {
-            accepted += 1;
-            ctx.label("accepted:truncation");
-        }
-    }
-    // --- extensions
-    for tail in [&[0u8][..], &[1], &[0xff], &[0, 0, 0, 0], &[0, 0, 0, 1, 0]] {
-        let mut ext = enc.to_vec();
-        ext.extend_from_slice(tail);
-        decodes += 1;
-        if check_bytes(e, &ext, "extension")? {
-            accepted += 1;
-            ctx.label("accepted:extension");
-        }
-    }
-    ctx.add_inner(decodes);
-    for _ in 0..accepted {
-        ctx.label("perturbed-encodings-accepted");
-    }
-    Ok(())
-}
-
-// ---------------------------------------------------------------------------
-// sub-check 1: generated values of every registry type
-
-fn case_values(bytes: &[u8], ctx: &mut Ctx) -> CaseResult {
-    report_drift_once(ctx);
-    let mut s = Src::new(bytes);
-    let reg = registry();
-    // uniform over the registry (two choice bytes; monotone, 0 = first entry)
-    let e = &reg[(usize::from(s.u16()) * reg.len()) >> 16];
-    let v = (e.generate)(&mut s);
-    let gl = take_gen_labels();
-    let enc = check_value(e, &*v, ctx)?;
-    ctx.label(format!("type:{}", e.name));
-    for l in gl {
-        ctx.label(l);
-    }
-    let budget_us = if ctx.tier == Tier::Thorough { 120_000 } else { 60_000 };
-    perturbations(e, &*v, &enc, budget_us, ctx)?;
-    if enc.len() > 8 && e.variable_len() {
-        let mut f = Fnv::new();
-        f.write(e.name.as_bytes()).write(&[0]).write(&enc);
-        ctx.nontrivial(f.finish());
-    }
-    ctx.render(|| format!("{} = {}  encoding({} bytes) = {}", e.name, v.debug(), enc.len(), hx(&enc)));
-    ctx.ran_dry(s.ran_dry());
-    Ok(())
-}
-
-// ---------------------------------------------------------------------------
-// sub-check 2: the 7 valid v2 vectors in every container of ProofOfSpace
-
-struct ForceVector<'a> {
-    vector: &'a PosVector,
-    challenge_seed: u64,
-    n: u64,
-}
-
-impl Walker for ForceVector<'_> {
-    fn pos(&mut self, p: &mut ProofOfSpace) {
-        // challenge varied freely: it does not enter the quality string
-        let ch: [u8; 32] = if self.challenge_seed == 0 {
-            self.vector.challenge
-        } else {
-            vstream::gen::expand(self.challenge_seed.wrapping_add(self.n), 32).try_into().unwrap()
-        };
-        self.n += 1;
-        *p = self.vector.make(Bytes32::new(ch));
-    }
-}
-
-fn pos_containers() -> &'static Vec<usize> {
-    static C: OnceLock<Vec<usize>> = OnceLock::new();
-    C.get_or_init(|| {
-        // registry entries that can embed a proof of space: a value generated
-        // from a rich choice sequence reaches a ProofOfSpace when walked
-        struct Count(usize);
-        impl Walker for Count {
-            fn pos(&mut self, _p: &mut ProofOfSpace) {
-                self.0 += 1;
-            }
-        }
-        let mut out = vec![];
-        for (i, e) in registry().iter().enumerate() {
-            if !e.has_fix {
-                continue;
-            }
-            let mut hit = false;
-            for seed in 1..=6u64 {
-                let bytes = vstream::gen::expand(seed, 1500);
-                let mut v = (e.generate)(&mut Src::new(&bytes));
-                let mut c = Count(0);
-                v.walk(&mut c);
-                if c.0 > 0 {
-                    hit = true;
-                    break;
-                }
-            }
-            let _ = take_gen_labels();
-            if hit {
-                out.push(i);
-            }
-        }
-        out
-    })
-}
-
-fn enum_vectors(tier: Tier, shard: usize, n: usize, emit: &mut dyn FnMut(&[u8]) -> bool) {
-    let seeds: u8 = match tier {
-        Tier::Quick => 6,
-        Tier::Thorough => 60,
-    };
-    let mut idx = 0usize;
-    for vi in 0..vectors().len() as u8 {
-        for ci in 0..pos_containers().len() as u8 {
-            for seed in 0..seeds {
-                let mine = idx % n == shard;
-                idx += 1;
-                if mine && !emit(&[vi, ci, seed]) {
-                    return;
-                }
-            }
-        }
-    }
-}
-
-/// bytes = [vector index, container index, seed]
-fn case_vectors(bytes: &[u8], ctx: &mut Ctx) -> CaseResult {
-    let mut s = Src::new(bytes);
-    let (vi, ci, seed) = (s.u8() as usize, s.u8() as usize, u64::from(s.u8()));
-    let vs = vectors();
-    let cs = pos_containers();
-    if vs.is_empty() || cs.is_empty() {
-        ctx.discard();
-        return Ok(());
-    }
-    let vector = &vs[vi % vs.len()];
-    let e = &registry()[cs[ci % cs.len()]];
-    // the container value comes from a deterministic choice sequence derived from the seed
-    let choice = vstream::gen::expand(0x5eed_0000 + seed * 131 + ci as u64, 1400);
-    let mut v = (e.generate)(&mut Src::new(&choice));
-    let _ = take_gen_labels();
-    let mut f = ForceVector { vector, challenge_seed: seed, n: 0 };
-    v.walk(&mut f);
-    if f.n == 0 {
-        // this particular value embeds no proof (empty Vec / None)
-        ctx.label("vector-container:no-proof-embedded");
-        return Ok(());
-    }
-    let enc = check_value(e, &*v, ctx)?;
-    match v.expected_hash(&enc) {
-        HashExpect::Defined { source: HashSource::Vectors, v2_proofs, .. } => {
-            vensure!(v2_proofs as u64 == f.n, "C13:harness:vector-count", "forced {} proofs, found {}", f.n, v2_proofs);
-        }
-        other => vfail!(
-            "C13:harness:vector-not-recognised",
-            "{}: forced vector {} not recognised by the hash rule: {other:?}",
-            e.name,
-            vector.name
-        ),
-    }
-    // the vector's own commitment, as the code computes it
-    if e.name == "ProofOfSpace" {
-        let p = v.as_any().downcast_ref::<ProofOfSpace>().expect("ProofOfSpace entry");
-        let q = p.quality_string().map(|q| q.to_bytes());
-        vensure!(
-            q == Some(vector.quality),
-            "C13:hash:quality-string-differs-from-vector-file",
-            "vector {}: quality_string() = {:?}, file says {}",
-            vector.name,
-            q.map(hex::encode),
-            hex::encode(vector.quality)
-        );
-    }
-    // canonicity around the valid encoding (sampled)
-    perturbations(e, &*v, &enc, 40_000, ctx)?;
-    ctx.label(format!("vector:{}", vector.name));
-    ctx.label(format!("vector-container:{}", e.name));
-    let mut fp = Fnv::new();
-    fp.write(e.name.as_bytes()).write(&[0]).write(&enc);
-    ctx.nontrivial(fp.finish());
-    ctx.render(|| format!("vector {} in {} ({} proofs), encoding {} bytes: {}", vector.name, e.name, f.n, enc.len(), hx(&enc)));
-    Ok(())
-}
-
 fn main() {
-    let prop = Property {
-        id: "C13",
-        rule: "values: a registry type chosen by the choice sequence (every Streamable type of chia-protocol, chia-bls, chia-consensus, chia-datalayer + primitive/combinator instantiations), a well-formed value (derived Arbitrary + fix-up of ProofOfSpace/FullBlock/UnfinishedBlock/Program, or hand-written generator), its encoding, then every single-byte perturbation (each position set to 0,1,2,3,4,0x7f,0x80,0xff,b±1; all positions up to 512 bytes, sampled beyond with bytes 0..=3 preferred), block perturbations, truncations and extensions. vectors: each of the 7 valid v2 proof-of-space vectors forced into every proof of every container type, challenge varied. NON-TRIVIAL = encoding longer than 8 bytes of a type whose encoding has an Option/Vec/version prefix (variable length); DISTINCT by (type, encoding). labels type:<T> count values per type; perturbed-encodings-accepted counts perturbed byte strings that decoded successfully (each re-encoded to the same bytes, agreed with the trusted decoder and hashed to sha256 of the bytes); inner_evaluations counts all perturbed decodes.",
-        assumptions: &[
-            "sha2 crate as the reference SHA-256",
-            "for v2 proofs of space that are not one of the 7 repository vectors the commitment is taken from ProofOfSpace::quality_string() (the structure of the hash pre-image is still checked independently); values whose v2 proof yields no quality string have no defined hash: (3) is skipped for them and counted (hash:skipped-undefined-v2-proof; C14 finding F3)",
-            "the position of a v2 proof inside a container encoding is found by flipping the proof bytes and re-encoding",
-            "equality of values is the types' own PartialEq",
-            "types declared in the tree without a registry entry are listed under labels types_uncovered:* (warning, not a violation)",
-        ],
-        death_is_violation: false,
-        subchecks: vec![
-            SubCheck {
-                name: "values",
-                about: "round trip, hash rule, canonicity under byte perturbations, trusted/untrusted agreement for generated values of every registry type",
-                source: Source::Random { len: 1024, quick: 60_000, thorough: 1_200_000 },
-                run: case_values,
-                inflight: false,
-                min_nontrivial: 18_000,
-                required_labels: &[
-                    "type:FullBlock",
-                    "type:UnfinishedBlock",
-                    "type:ProofOfSpace",
-                    "type:Program",
-                    "type:datalayer::ProofOfInclusion",
-                    "type:OwnedSpendBundleConditions",
-                    "pos:v1-format",
-                    "pos:v2-vector",
-                    "pos:v2-shaped",
-                    "pos:v2-unshaped",
-                    "block:v0",
-                    "block:v1",
-                    "program:backrefs",
-                    "hash:plain",
-                    "hash:v2-commitment-from-vector-files",
-                    "hash:skipped-undefined-v2-proof",
-                    "perturbed-encodings-accepted",
-                ],
-            },
-            SubCheck {
-                name: "v2-vectors",
-                about: "the 7 valid v2 proof-of-space vectors (commitment from the vector files) in every container type, challenge varied",
-                source: Source::Enumerate { f: enum_vectors, exhaustive: false },
-                run: case_vectors,
-                inflight: false,
-                min_nontrivial: 300,
-                required_labels: &[
-                    "vector:pool-2-0-0",
-                    "vector:contract-2-0-0",
-                    "vector:contract-3-0-0",
-                    "vector:pool-3-0-0",
-                    "vector:pool-2-1-0",
-                    "vector:pool-2-0-1",
-                    "vector:pool-2-1000-7",
-                    "vector-container:FullBlock",
-                    "vector-container:WeightProof",
-                    "hash:v2-commitment-from-vector-files",
-                ],
-            },
-        ],
-    };
-    engine::main(prop);
+    c13::run_main();
 }
